@@ -140,4 +140,4 @@ def check(case, ev):
 
 
 def parts(tier):
-    return [Part("reduce", strategy=lambda t: case_strategy(t), check=check, quick=(8, 150), thorough=(16, 2500))]
+    return [Part("reduce", strategy=lambda t: case_strategy(t), check=check, quick=(8, 350), thorough=(16, 2500))]
